@@ -265,7 +265,75 @@ class SendonlyReaderScn:
         return None, 1
 
 
-SCENARIOS = {"writer": WriterScn, "reader": RealReaderScn, "sendonly": SendonlyReaderScn}
+class EndThenWriteScn:
+    """a thread reads through makefile('r') to the end of the channel and at once writes through
+    makefile('w'): once the empty end-of-channel result was seen, the write must raise OSError --
+    under every interleaving with the receiver thread that is closing the channel"""
+
+    @staticmethod
+    def scenario(w, P):
+        S = Session(w, P.get("transport", "popen"), "thread")
+
+        def main():
+            gw = S.open()
+            body = "for x in %r:\n    channel.send(x)\n" % (P["items"],)
+            if P["end"] == "error":
+                body += "raise ValueError('boom')\n"
+            ch = gw.remote_exec(body)
+            w.exploring = True
+
+            def reader():
+                f = ch.makefile("r")
+                out = []
+                try:
+                    while True:
+                        try:
+                            x = f.readline() if P["call"] == "readline" else f.read(2)
+                        except ch.RemoteError:
+                            break  # the remote failure is the end of this channel
+                        if not x:
+                            break
+                        out.append(x)
+                    # the end of the channel was observed
+                    try:
+                        ch.makefile("w").write("late")
+                        res = "ok"
+                    except OSError:
+                        res = "OSError"
+                    w.observe("reader", out, res, ch.isclosed(), "closed" in repr(f))
+                except BaseException as e:  # noqa: BLE001
+                    w.observe("reader-exc", type(e).__name__, str(e)[:80])
+
+            S.user(reader, "reader")
+            S.join_users()
+            w.exploring = False
+            w.observe("main-done")
+            S.group.terminate(timeout=1.0)
+
+        S.main(main)
+        return S
+
+    @staticmethod
+    def oracle(w, S, P):
+        obs = w.obs
+        if ("main-done",) not in obs:
+            return ("c19:end-then-write-hang", f"obs={obs} blocked={w.blocked_at_end}"), 0
+        rd = [e for e in obs if e[0] == "reader"]
+        if not rd:
+            return ("c19:end-then-write-exception", f"obs={obs}"), 0
+        _, out, res, closed, rep_closed = rd[0]
+        if "".join(out) != "".join(P["items"]) and P["end"] != "error":
+            return ("c19:end-then-write-data", f"read {out} from items {P['items']}"), 0
+        if res != "OSError" or not closed or not rep_closed:
+            return ("c19:write-after-observed-end", f"after read() returned the empty end-of-channel result, write() -> {res}, isclosed()={closed}, file repr says closed={rep_closed}"), (res, closed)
+        return None, (res, closed)
+
+
+SCENARIOS = {"writer": WriterScn, "reader": RealReaderScn, "sendonly": SendonlyReaderScn, "endwrite": EndThenWriteScn}
+
+
+def STMT_PRED(m, q, l):
+    return m == "gateway_base" and (q.startswith("ChannelFactory.") or q.startswith("ChannelFile") or q.startswith("Channel.receive") or q.startswith("Channel.close") or q.startswith("Channel.send"))
 
 
 def run(tier: str, only=None) -> int:
@@ -321,6 +389,17 @@ def run(tier: str, only=None) -> int:
         if r.violation is not None:
             rep.violation(r.violation[0], r.violation[1], {"check": PID, "sub": "sendonly", "proxyclose": pc})
     rep.add_enumeration("reader-on-sendonly-channel", 2, 2)
+    from engine import harness
+
+    stmt = harness.stmt_mask(STMT_PRED)
+    for end in ("body-end", "error"):
+        for call in ("read", "readline"):
+            P = {"items": ["ab\n", "c"], "end": end, "call": call}
+            name = f"endwrite/{end}:{call}"
+            if only and only not in name:
+                continue
+            harness.run_exploration(rep, PID, name + "/sync", EndThenWriteScn, P, {"ps": 2, "free": 1}, max_execs=400000)
+            harness.run_exploration(rep, PID, name + "/stmt", EndThenWriteScn, P, {"ps": 0, "pl": 1 if tier == "quick" else 2, "free": 1}, stmt=stmt, max_execs=400000)
     rep.assumptions += ["the exhaustive reader runs drive Channel.makefile('r') over a stub receive() (items, then EOFError forever); a set of histories over the real Channel in a virtual session binds them to the implementation"]
     return rep.finish()
 
@@ -328,5 +407,10 @@ def run(tier: str, only=None) -> int:
 def replay(path: str) -> int:
     import json
 
-    print(json.load(open(path)))
+    from engine import harness
+
+    d = json.load(open(path))
+    if "choices" in d:
+        return harness.replay_file(path, SCENARIOS, stmt_for=lambda d: harness.stmt_mask(STMT_PRED))
+    print(d)
     return 1
